@@ -3,6 +3,13 @@
 CODEC = {"name": "codec"}
 DECODE = {"name": "decode"}
 REFLECT = {"name": "reflect"}
+GEN = {"name": "gen"}
+DESC = {"name": "desc"}
+RACE = {"name": "race"}
+SMALL = {"quick": ["-n", "3000"], "thorough": ["-n", "60000"]}
+
+# which correspondence line labels count for which property ("B" = Spec model vs real reference)
+B_PROPS = {"C01", "C02", "C03", "C08", "C10", "C14"}
 
 TECH = "Lean 4 proof + model/implementation correspondence"
 
@@ -33,6 +40,25 @@ PROPS = {
         "design": "DESIGN.md §3 C05",
     },
     "C06": {"engines": [DECODE], "claimed": False},
+    "C08": {
+        "engines": [REFLECT],
+        "text": "Lean 4 refinement theorems C08_step_refines / C08_history_refines: for every schema, every well-typed state and every finite history of protoreflect operations (all message, list and map operations, at any nesting path), the model of the generated fast reflection and the abstract reference machine give equal outputs and related states; corollaries: oneof holds at most one member, Set of a member replaces, Clear of an inactive member is a no-op, Range visits exactly the populated fields once, Mutable views write through. Both machines are tied on every run: Impl machine vs real fast reflection (+ struct view, getters), Spec machine vs real dynamicpb, and fast vs dynamicpb vs struct-based slow reflection directly.",
+        "note": "trusted: Lean kernel; correspondence sampling of histories (random, and exhaustive short histories in the thorough tier); misuse ops on which the two reference implementations disagree are not compared; Go pointer aliasing of detached composites after Set follows the protoreflect contract (dead after Set)",
+        "design": "DESIGN.md §3 C08",
+    },
+    "C09": {
+        "engines": [REFLECT],
+        "text": "Lean 4 theorems C09_nil_reads / C09_nil_reads_no_panic / C09_nil_writes_panic / C09_nil_codec / C09_nil_refines_spec on the reflection model (every read on a nil message returns what the empty message returns, every write panics and changes nothing, Size 0 / Marshal empty); tied by an exhaustive enumeration on the real code of every way a nil arises x every field x every read / library call.",
+        "note": "trusted: Lean kernel; protobuf-go library calls (Equal/Clone/Merge/protojson/prototext) are not modelled, they are run on the real code and compared with the reference's answers",
+        "design": "DESIGN.md §3 C09",
+    },
+    "C10": {
+        "engines": [REFLECT],
+        "lean": "C08",
+        "text": "Partial by construction: protobuf-go's generic algorithms talk to a message only through protoreflect.Message, so they cannot distinguish two machines related by the C08 refinement (C08_history_refines, re-checked here); the algorithms themselves (Equal, Clone, Merge, Reset, CheckInitialized, protojson/prototext) are trusted library code and are run on the real generated messages and on dynamicpb messages holding the same values, results compared on every check, including values reached only through the JSON/text parsers.",
+        "note": "partial: the library algorithms are not modelled; that they use only the reflection interface on pulsar types (ProtoMethods Merge/CheckInitialized are nil) is read off proto_message.go and exercised by the differential run",
+        "design": "DESIGN.md §3 C10",
+    },
     "C14": {"engines": [DECODE], "claimed": False},
     "C15": {
         "engines": [{"name": "runtime"}],
@@ -62,6 +88,11 @@ PROPS = {
 }
 
 REQUIRED = {
+    "C08": ["C08_step_refines", "C08_step_state", "C08_step_preserves_wf", "C08_history_refines", "C08_oneof_at_most_one",
+            "C08_set_member_replaces", "C08_clear_inactive_member_noop", "C08_range_exactly_populated_once",
+            "C08_mutable_view_writes_through"],
+    "C09": ["C09_nil_reads", "C09_nil_reads_no_panic", "C09_nil_writes_panic", "C09_nil_codec", "C09_nil_refines_spec"],
+    "C10": ["C08_step_refines", "C08_history_refines"],
     "C02": ["C02_keyBytes_eq_tag", "C02_wireType_table", "C02_det_eq_reference"],
     "C03": ["C03_strict_implies_reference", "C03_decode_eq_reference", "C03_decode_eq_reference_fresh"],
     "C04": ["C04_keySize_eq", "C04_size_eq_len", "C04_size_eq_reference", "C04_index_reaches_zero", "C04_append"],
@@ -81,9 +112,6 @@ NOT_YET = {
     "C01": "check under construction (codec engine runs; round-trip theorem not yet proved)",
     "C06": "check under construction (decode engine runs; theorems being proved)",
     "C07": "check under construction",
-    "C08": "check under construction (reflection model and engine being integrated)",
-    "C09": "check under construction (reflection model and engine being integrated)",
-    "C10": "check under construction",
     "C11": "check under construction",
     "C12": "check under construction",
     "C13": "check under construction",
